@@ -108,6 +108,8 @@ def run(ctx):
     # ---------------- G4 the generators saturate: no class of positive arguments turns into NaN / inf / a value above 1
     import mag
     EXPS = (-1074, -1022, -600, -100, -1, 0, 1, 100, 600, 1022, 1023)
+    if ctx.tier == 'thorough':
+        EXPS = tuple(sorted(set(range(-1074, 1024, 4)) | set(EXPS)))
     for name in ('a_lpf_gen', 'a_hpf_gen'):
         fn = ctx.fn('hdr_unit', name)
         if fn is None:
